@@ -12,8 +12,7 @@ pub fn prefiltered_legal_exact<S: Src, const SIDE: u8, const KG: u8>(s: &mut S) 
         None => return,
     };
     let p = pos_of(b.raw());
-    let m = any_m(s);
-    vassume!(in_group(m, KG));
+    let m = any_m_g::<S, SIDE, KG>(s);
     vassume!(semilegal_ref(&p, m));
     let mv = mv_of(m);
     let got = verif::is_legal_prefiltered(&b, mv);
@@ -33,8 +32,7 @@ pub fn validate_exact<S: Src, const SIDE: u8, const KG: u8>(s: &mut S) {
         None => return,
     };
     let p = pos_of(b.raw());
-    let m = any_m(s);
-    vassume!(in_group(m, KG));
+    let m = any_m_g::<S, SIDE, KG>(s);
     vassume!(wf_ref(m));
     let mv = mv_of(m);
     let want = legal_ref(&p, m);
@@ -60,8 +58,7 @@ pub fn try_unchecked_exact<S: Src, const SIDE: u8, const KG: u8>(s: &mut S) {
     };
     let p = pos_of(b.raw());
     vassume!(p.mc < u16::MAX && p.mn < u16::MAX);
-    let m = any_m(s);
-    vassume!(in_group(m, KG));
+    let m = any_m_g::<S, SIDE, KG>(s);
     vassume!(semilegal_ref(&p, m));
     let mv = mv_of(m);
     let mut b2 = b.clone();
